@@ -21,8 +21,7 @@ NPROC = int(os.environ.get("VERIF_JOBS", "16"))
 TRUSTED_BASE = [
     "Coq 8.16.1 kernel (coqc); vm_compute only inside Examples/_refuted witnesses; no native_compute",
     "harness/translate.py (Python ast, fail closed) for the tables tied in coq/Generated/Tie.v",
-    "extraction: ExtrOcamlBasic + ExtrOcamlString (Extract Inductive bool, option, unit, list, prod, "
-    "sumbool, ascii->char, string->char list); no Extract Constant; OCaml 4.13.1; ocaml/main.ml",
+    'extraction: only the standard files ExtrOcamlBasic and ExtrOcamlString (which requires ExtrOcamlChar) are imported; the development adds no Extract directive of its own. Directives they contain: Extract Inductive bool, option, unit, list, prod, sumbool, sumor (ExtrOcamlBasic), ascii => char, byte => char (ExtrOcamlChar), string => char list (ExtrOcamlString); Extract Inlined Constant andb => (&&), orb => (||) (ExtrOcamlBasic), ascii_dec, Ascii.eqb, Byte.eqb, Byte.byte_eq_dec => (=), Ascii.ascii_of_byte, Ascii.byte_of_ascii => identity, Extract Constant Ascii.zero, Ascii.one, Ascii.shift, Ascii.compare (ExtrOcamlChar). nat, positive, Z, Q, Qc stay extracted inductive datatypes. OCaml 4.13.1, ocaml/main.ml (S-expression reader/printer, float sqrt glue)',
     "correspondence harness (generators, observation functions, comparators) in /verif/harness",
     "modelled, not verified: CPython dispatch semantics, pandas, numpy, scipy",
 ]
